@@ -86,11 +86,65 @@ def mk_candles(n, toks):
     return [mk_candle(t) for t in parse_candle_tuples(n, toks)]
 
 
+def iso_string(secs, style):
+    """the timestamp as an ISO-8601 string: `iso=T` datetime.isoformat() ("1970-01-01T00:00:00"), `iso=S` str(datetime)
+    (a space instead of the "T"), `iso=B` the basic date with an explicit zero fraction ("19700101T00:00:00.000000")"""
+    ts = wire.secs_to_ts(secs)
+    if style == "S":
+        return str(ts)
+    if style == "B":
+        return ts.strftime("%Y%m%dT%H:%M:%S.000000")
+    return ts.isoformat()
+
+
+def as_timeframe(ps, tf):
+    """`tfenum=1`: the timeframe is handed over as the `TimeFrame` member with that value (when there is one)"""
+    if ps.get("tfenum") == "1" and tf is not None:
+        from hexital.utils.timeframe import TimeFrame
+
+        if tf in [m.value for m in TimeFrame]:
+            return TimeFrame(tf)
+    return tf
+
+
+def csv_candle(tok):
+    """a fresh Candle (no readings) from one token `ts,o,h,l,c,v`"""
+    return mk_candle(parse_candle_tuples(1, tok.split(","))[0])
+
+
+def candles_eq(candles, ps):
+    """`candles[i] == candles[j]` / `== Candle(...)` / `== <not a Candle>`"""
+    i = int(ps["i"])
+    if ps.get("j") is not None:
+        return "true" if candles[i] == candles[int(ps["j"])] else "false"
+    if ps.get("c") is not None:
+        return "true" if candles[i] == csv_candle(ps["c"]) else "false"
+    if ps.get("other") is not None:
+        return "true" if candles[i] == 7 else "false"
+    return "bad-acc"
+
+
 def encode_input(ps, tuples):
-    """the caller-side encoding of candles for append(): enc=candle|dict|list|tlist, single=1 for one bare item"""
+    """the caller-side encoding of candles for append(): enc=candle|dict|list|tlist|isodict|isocandle (timestamps as
+    ISO-8601 strings, in dicts resp. handed to the Candle constructor), single=1 for one bare item;
+    enc=badobj|badlist: something append() does not accept"""
     enc = ps.get("enc") or "candle"
+    if enc == "badobj":
+        return 2.5
+    if enc == "badlist":
+        return ["x"] + [t[4] for t in tuples]
     if enc == "candle":
         data = [mk_candle(t) for t in tuples]
+    elif enc == "isocandle":
+        data = [Candle(open=t[1], high=t[2], low=t[3], close=t[4], volume=t[5],
+                       timestamp=None if t[0] is None else iso_string(t[0], ps.get("iso"))) for t in tuples]
+    elif enc == "isodict":
+        data = []
+        for t in tuples:
+            d = dict(open=t[1], high=t[2], low=t[3], close=t[4], volume=t[5])
+            if t[0] is not None:
+                d["timestamp"] = iso_string(t[0], ps.get("iso"))
+            data.append(d)
     elif enc == "dict":
         data = []
         for t in tuples:
@@ -109,7 +163,7 @@ def encode_input(ps, tuples):
 
 def mgr_kwargs(ps):
     kw = {}
-    kw["timeframe"] = ps.get("tf")
+    kw["timeframe"] = as_timeframe(ps, ps.get("tf"))
     kw["timeframe_fill"] = ps.get("fill") == "1"
     kw["candlestick_type"] = HeikinAshi() if ps.get("ha") == "1" else None
     life = ps.get("life")
@@ -178,6 +232,8 @@ class ImplRunner:
         form = ps.get("form") or "obj"
         mspec = {k: v for k, v in spec.items() if k not in ("fill", "ha", "life")}
         ha = bool(spec.get("ha"))   # a member-level candlestick type (inside a Hexital the manager it is attached to decides)
+        if mspec.get("tf"):
+            mspec["tf"] = as_timeframe(ps, mspec["tf"])
         if form == "dict":
             d = specs.as_config_dict(mspec, with_manager=False)
             if mspec.get("tf"):
@@ -194,6 +250,8 @@ class ImplRunner:
             ind = specs.build_indicator({**full, "fill": False, "ha": ha, "life": None}, [], with_manager=True)
         if form == "settings":
             return ind.settings
+        if form == "used":      # the object has run once on its own (empty) candles: `_initialise` has created its helper indicators
+            ind.calculate()
         return ind
 
     def _ind_op(self, fn):
@@ -208,8 +266,8 @@ class ImplRunner:
 
         return self._try(f)
 
-    def _acc(self, what, ps):
-        ind = self.ind
+    def _acc(self, what, ps, ind=None):
+        ind = self.ind if ind is None else ind
         name = ps.get("name")
         idx = None if ps.get("idx") is None else int(ps["idx"])
         try:
@@ -231,6 +289,18 @@ class ImplRunner:
                 return "true" if ind.reading_period(int(ps.get("period") or 1), name, idx) else "false"
             if what == "candles_sum":
                 return wire.enc_val(ind.candles_sum(int(ps.get("length") or 1), name, idx))
+            if what == "read_candle":
+                if ps.get("c") is not None:
+                    return wire.enc_val(ind.read_candle(csv_candle(ps["c"]), name))
+                return wire.enc_val(ind.read_candle(ind.candles[-1 if idx is None else idx], name))
+            if what == "reading_period_fn":
+                from hexital.utils.candles import reading_period
+
+                return "true" if reading_period(ind.candles, int(ps.get("period") or 1), name if name else ind.name, idx) else "false"
+            if what == "find":
+                return "true" if ind.candle_manager.find_indicator(name if name else ind.name) else "false"
+            if what == "ceq":
+                return candles_eq(ind.candles, ps)
         except Exception as e:  # noqa
             return "a" + wire.enc_err(e)
         return "bad-acc"
@@ -285,6 +355,48 @@ class ImplRunner:
                 self.mgr = m
 
             return self._try(f)
+        if op == "macc":
+            if self.mgr is None:
+                return ["nomgr"]
+            ps, _ = split_params(rest[1:])
+            m = self.mgr
+            try:
+                if rest[0] == "find":
+                    return ["true" if m.find_indicator(ps["name"]) else "false"]
+                if rest[0] == "eq":
+                    other = 7 if ps.get("other") is not None else CandleManager([], **mgr_kwargs(ps))
+                    return ["true" if m == other else "false"]
+                if rest[0] == "ceq":
+                    return [candles_eq(m.candles, ps)]
+            except Exception as e:  # noqa
+                return ["a" + wire.enc_err(e)]
+            return ["bad-acc"]
+        if op == "util":
+            from hexital.utils import indexing
+
+            ps, _ = split_params(rest[1:])
+            idx = None if ps.get("idx") in (None, "None") else int(ps["idx"])
+            ln = int(ps.get("len") or 0)
+            oi = lambda v: "n" if v is None else str(v)  # noqa
+            if rest[0] == "validate_index":
+                return [oi(indexing.validate_index(idx, ln, int(ps.get("default") or -1)))]
+            if rest[0] == "absindex":
+                return [oi(indexing.absindex(idx, ln))]
+            if rest[0] == "valid_index":
+                return ["true" if indexing.valid_index(idx, ln) else "false"]
+            return ["bad-acc"]
+        if op == "mtag":
+            if self.mgr is None:
+                return ["bad-op"]
+            ps, _ = split_params(rest)
+            m = self.mgr
+
+            def f():
+                self.mgr = None
+                m.candles[int(ps.get("i") or -1)].tag = "Heikin-Ashi"
+                self.mgr = m
+
+            return self._try(f)
         if op == "mtasks":
             if self.mgr is None:
                 return ["bad-op"]
@@ -300,6 +412,7 @@ class ImplRunner:
             ps, rest = split_params(rest)
             cs = mk_candles(int(ps["n"]), rest)
             spec = specs.params_to_spec(ps)
+            spec["tf"] = as_timeframe(ps, spec.get("tf"))
             box = {}
 
             def f():
@@ -322,6 +435,9 @@ class ImplRunner:
             return self._ind_op(lambda i: i.calculate_index(s_, e_))
         if op == "ipurge":
             return self._ind_op(lambda i: i.purge())
+        if op == "ipurgename":
+            ps, _ = split_params(rest)
+            return self._ind_op(lambda i: i.candle_manager.purge(ps["name"]))
         if op == "irecalc":
             return self._ind_op(lambda i: i.recalculate())
         if op == "isnap":
@@ -368,11 +484,17 @@ class ImplRunner:
             if ps.get("idx") is not None:
                 kw["index"] = int(ps["idx"])
             try:
+                if ps.get("one") is not None:    # ONE candle instead of the list (positive / negative accept that)
+                    one = self.ind.candles[int(ps["one"])]
+                    return [wire.enc_val(guarded(lambda: fns[ps["fn"]](one, **kw)))]
                 return [wire.enc_val(guarded(lambda: fns[ps["fn"]](self.ind.candles, **kw)))]
             except Exception as e:  # noqa
                 return ["a" + wire.enc_err(e)]
         if op == "hmember":
             ps, _ = split_params(rest)
+            if ps.get("form") == "bad":      # neither an Indicator nor a dict
+                self.pending.append(3.5)
+                return ["ok name=-"]
             try:
                 m = self._member(ps)
             except Exception as e:  # noqa
@@ -429,7 +551,15 @@ class ImplRunner:
             h = self.hex
             try:
                 if rest[0] == "reading":
+                    if ps.get("idx") == "None":
+                        return [wire.enc_val(h.reading(nm, None))]
                     return [wire.enc_val(h.reading(nm, int(ps.get("idx") or -1)))]
+                if rest[0] == "indicator":
+                    return [self._acc(ps.get("what") or "name", ps, ind=h.indicator(ps.get("member") or ""))]
+                if rest[0] == "indicator_settings":
+                    from . import corr_settings
+
+                    return [" | ".join(corr_settings.enc_settings(d) for d in h.indicator_settings)]
                 if rest[0] == "prev_reading":
                     return [wire.enc_val(h.prev_reading(nm))]
                 if rest[0] == "has_reading":
